@@ -506,6 +506,9 @@ fn child_run(args: &[String]) {
         res.insert("gone".into(), json!(gone_rows(st, &w, to, &all_sides)));
     } else {
         res.insert("fn".into(), json!(st.freezer().map(|z| z.number())));
+        // the same vector once more: the first round filled the read caches (also with `None`s), the second is served
+        // from them
+        res.insert("again".into(), to_json(&answers(st, &w, to, &all_sides)));
     }
     println!("{}", json!({"child": Value::Object(res)}));
     use std::io::Write;
@@ -815,6 +818,7 @@ fn scenario(args: &[String]) {
                 trace.push(json!({"ev": "Restart", "fn": v2["fn"]}));
                 trace.push(json!({"ev": "Obs", "fn": v2["fn"], "gone": v2["pre_gone"]}));
                 compare(seed, &format!("pass{}/restart", j + 1), &v2["pre"], &refv, v2["pre_gone"].as_array().unwrap(), fnum, false, &mut st);
+                compare(seed, &format!("pass{}/restart-second-query", j + 1), &v2["again"], &refv, v2["pre_gone"].as_array().unwrap(), fnum, false, &mut st);
             }
             _ => println!("{}", json!({"diff": {"scenario": seed, "phase": format!("pass{}/restart", j + 1), "getter": "open", "class": "reopen-failed", "target": "-", "expected": "ok", "got": format!("{} {}", r2.status, r2.tail)}})),
         }
